@@ -500,6 +500,8 @@ def _short(v):
 def req_class(req, rv, adr):
     if adr is None:
         return "invalid"
+    if re.search(r"\]\{1\}$", req) and rv[0] == "L" and len(rv[1]) == 1 and rv[1][0][0] == "b":
+        return "boolarray-one-item-list"
     if is_bit_request(req):
         return "bit"
     if re.search(r"\]$", req) and adr[1] and bin(adr[1]).count("1") == 1:
@@ -614,7 +616,7 @@ def oracle_call(R, ctx, case, pairs, refs, adr, results, before, after, evs, fra
     want_plain = {}
     bit_reqs = []
     for i, (inst, A, V, n) in succ:
-        if is_bit_request(pairs[i][0]) or (bin(A).count("1") == 1 and re.search(r"\]$", pairs[i][0])):
+        if is_bit_request(pairs[i][0]) or (bin(A).count("1") == 1 and re.search(r"\](\{1\})?$", pairs[i][0])):
             bit_reqs.append((i, inst, A))
         else:
             key = (inst,) + byte_span(A, n)
@@ -769,6 +771,9 @@ def gen_call(rng, ctx, n, dup=0.1):
         if len(out) >= n:
             break
         req, py, rv = gen_pair(rng, ctx, g)
+        if g["kind"] == "a" and g["code"] == S.DWORD and g["dims"] and rng.random() < ctx.get("slice1", 0.0):
+            b = rng.random() < 0.5                           # `arr[i]{1}` written with a one-item list
+            req, py, rv = f"{sc.full_name(g)}[{rng.randrange(32 * g['dims'][0])}]{{1}}", [b], ("L", [("b", b)])
         out.append((req, py, rv))
         if is_bit_request(req) and rng.random() < 0.7:       # more bits of the same word, maybe the same bit again
             base = req.rsplit(".", 1)[0]
@@ -813,6 +818,8 @@ def bad_value_pairs(rng, ctx, k):
             m = re.match(r"(.*)\[(\d+)\]\{(\d+)\}$", req)
             if m and int(m.group(2)) + 1 + int(m.group(3)) <= 32 * 1000:
                 req = f"{m.group(1)}[{int(m.group(2)) + 1}]{{{m.group(3)}}}"   # misaligned
+        elif kind == "s" and sc.is_string(sc.template(code)):
+            py = 12 if not count else [12] * count               # a string element takes any str: only a non-str is unencodable
         else:
             py = "not a value" if not isinstance(py, str) else 12
         out.append((req, py, None))
@@ -972,9 +979,9 @@ def corr_rmw(R, mp, rng, n):
 
 
 # ------------------------------------------------------------------ scenarios
-def make_ctx(sc, sid, micro=False):
+def make_ctx(sc, sid, micro=False, slice1=0.0):
     tp, ref, drv, box = open_scenario(sc, micro)
-    return {"tp": tp, "ref": ref, "drv": drv, "box": box, "sc": sc, "cache": {}, "sid": sid}
+    return {"tp": tp, "ref": ref, "drv": drv, "box": box, "sc": sc, "cache": {}, "sid": sid, "slice1": slice1}
 
 
 def close_ctx(ctx):
@@ -992,7 +999,7 @@ def call3(out):
 
 
 def run_scenario(R, mp, rng, sc, sid, micro, n_calls, thorough):
-    ctx = make_ctx(sc, sid, micro)
+    ctx = make_ctx(sc, sid, micro, slice1=0.5 if thorough else 0.25)
     try:
         drv = ctx["drv"]
         R.count("config", f"conn={drv.connection_size},micro800={micro},instance_ids={drv._cfg['use_instance_ids']}")
@@ -1131,13 +1138,13 @@ def run(R, escalate=False):
         corr_rmw(R, mp, rng, 1500 if thorough else 400)
         tcs = synthetic_types(rng)
         corr_enc(R, mp, rng, tcs, 3000 if thorough else 900, 0.15)
-        n_sc = 60 if thorough else 9
+        n_sc = 100 if thorough else 12
         for k in range(n_sc):
             sc = S.gen_scenario(rng)
             micro = (k % 4 == 3)
             if micro:
                 sc = S.gen_scenario(rng, programs=False)
-            up = run_scenario(R, mp, rng, sc, f"seed{R.seed}#{k}", micro, 14 if thorough else 9, thorough)
+            up = run_scenario(R, mp, rng, sc, f"seed{R.seed}#{k}", micro, 14 if thorough else 10, thorough)
             corr_enc(R, mp, rng, up, 400 if thorough else 150, 0.0)
             corr_enc(R, mp, rng, up, 300 if thorough else 100, 0.12)
         for large in (True, False):
